@@ -406,6 +406,13 @@ impl VM {
         // It is a programmer error to ask for a thread to be forked when none exists,
         // so we forward the error immediately.
         let new_thread = self.current_thread_mut()?.fork(jump_target);
+
+        // A thread that starts out beyond the gas limit has nothing left to execute; the
+        // current thread reports the exhaustion once this instruction completes
+        if new_thread.gas_usage() > self.config.gas_limit {
+            return Ok(());
+        }
+
         self.enqueue_thread(new_thread);
 
         Ok(())
